@@ -186,14 +186,14 @@ Definition get_key (c : cipher) (st : wst) (s : spkm) : option bytes :=
 (* bool DescriptorScriptPubKeyMan::Encrypt(master_key, batch)   (one key)
    { if (!m_map_crypted_keys.empty()) return false;
      for each key: EncryptSecret(master_key, secret, pubkey.GetHash(), crypted); m_map_crypted_keys[...] = crypted;
-                   batch->WriteCryptedDescriptorKey(GetID(), pubkey, crypted);          // see `chk`
+                   if (!batch->WriteCryptedDescriptorKey(GetID(), pubkey, crypted)) return false;
      m_map_keys.clear(); return true; }
    bool WalletBatch::WriteCryptedDescriptorKey(desc_id, pubkey, secret)
    { if (!WriteIC(walletdescriptorckey ..., secret, false)) return false;
-     EraseIC(walletdescriptorkey ...);                                                 // see `chk`
-     return true; }
-   `chk` = false: the results marked above are ignored (this tree at the time the check was written).
-   `chk` = true: a failed write or erase makes Encrypt return false (the caller aborts the transaction and dies). *)
+     return EraseIC(walletdescriptorkey ...); }
+   `chk` = true is this code: a failed write or erase makes Encrypt return false (the caller aborts the transaction and dies).
+   `chk` = false is the code before /repo 767b57b and 8268070 (both results ignored), kept so that the theorems showing
+   why the checks are needed stay stated about a transcription. *)
 Definition spkm_encrypt (chk : bool) (c : cipher) (mk : bytes) (s : spkm) (d : dbst) (o : list bool) : option (spkm * dbst * list bool) :=
   match s_crypt s with
   | Some _ => None
@@ -249,7 +249,8 @@ Definition die (st : wst) : wst := mkW (w_spk st) (w_mk st) (w_maxid st) (w_vm s
      mapMasterKeys[++nMasterKeyMaxID] = master_key;
      encrypted_batch = new WalletBatch(GetDatabase());
      if (!encrypted_batch->TxnBegin()) { ...; return false; }
-     encrypted_batch->WriteMasterKey(nMasterKeyMaxID, master_key);                     // see `chk`
+     if (!encrypted_batch->WriteMasterKey(nMasterKeyMaxID, master_key)) {              // `chk` (before /repo 21144c2: result ignored)
+         encrypted_batch->TxnAbort(); ...; mapMasterKeys.erase(nMasterKeyMaxID--); return false; }
      for (spk_man : m_spk_managers) if (!spk_man->Encrypt(plain_master_key, encrypted_batch)) { TxnAbort(); assert(false); }
      if (!encrypted_batch->TxnCommit()) { assert(false); }
      Lock(); if (!Unlock(strWalletPassphrase)) return false;
@@ -301,11 +302,15 @@ Definition encrypt_wallet (chk : bool) (c : cipher) (st : wst) (pass mk salt : b
      for (auto& [id, master_key] : mapMasterKeys) {
          if (!DecryptMasterKey(old, master_key, plain)) return false;
          if (Unlock(plain)) {
-             if (!EncryptMasterKey(new, plain, master_key)) return false;    // same salt; replaces the in-memory record
-             WalletBatch(GetDatabase()).WriteMasterKey(id, master_key);        // see `chk`
+             CMasterKey new_master_key{master_key};                          // same salt
+             if (!EncryptMasterKey(new, plain, new_master_key)) return false;
+             // Only switch to the new passphrase in memory once it is in the database
+             if (!WalletBatch(GetDatabase()).WriteMasterKey(id, new_master_key)) { if (fWasLocked) Lock(); return false; }   // `chk`
+             master_key = new_master_key;
              if (fWasLocked) Lock();
              return true; } }
-     return false; } *)
+     return false; }
+   `chk` = false: the code before /repo e225567 (in-memory record replaced first, result of the write ignored). *)
 Fixpoint set_mk (l : list (nat * (bytes * bytes))) (id : nat) (rec : bytes * bytes) : list (nat * (bytes * bytes)) :=
   match l with
   | [] => []
@@ -324,7 +329,7 @@ Fixpoint chpass_loop (chk : bool) (c : cipher) (st : wst) (was_locked : bool) (o
       | Some st1 =>
         let rec' := encrypt_master c new (fst rec) mk in
         let (w, _) := pop o in
-        if negb w && chk then (st1, false) else
+        if negb w && chk then ((if was_locked then fst (lock st1) else st1), false) else
         let d := if w then db_write (w_db st1) (KMaster id) (Some (VMaster (fst rec') (snd rec'))) else w_db st1 in
         let st2 := mkW (w_spk st1) (set_mk (w_mk st1) id rec') (w_maxid st1) (if was_locked then None else w_vm st1) d (w_dirty st1) (w_dead st1) in
         (st2, true)
@@ -422,7 +427,7 @@ Definition can_sign (c : cipher) (st : wst) : nat :=
   length (filter (fun s => match get_key c st s with Some _ => true | None => false end) (w_spk st)).
 
 (* this tree *)
-Definition code_chk : bool := false.
+Definition code_chk : bool := true.
 
 (* the ideal cipher used to run the state machine next to the real wallet: ciphertext = key, iv and plaintext side by
    side (decryption with another key or iv fails); kdf = passphrase and salt side by side; pubkey = the secret reversed *)
